@@ -566,7 +566,7 @@ def gen_c14(ch, spec):
                        {"op": "overlap", "side": ch.choice("wl", ["A", "B"]), "dt": ch.choice("wl", [0.0, 0.01, 0.5]),
                         "first": ch.choice("wl", ["setLocal:offer", "setRemote:offer", "setLocal:implicit"]),
                         "second": ch.choice("wl", ["setLocal:offer", "setRemote:offer", "setLocal:implicit", "createAnswer",
-                                                   "createOffer"]),
+                                                   "createOffer", "close"]),
                         "after": ch.choice("wl", [1, 1, 2, 5])})
     # a conversation skeleton in a share of runs, so that deep states are reached
     if ch.chance("wl", 0.5):
@@ -709,6 +709,8 @@ class C14World(PcWorld):
             return pc.createOffer
         if kind == "createAnswer":
             return pc.createAnswer
+        if kind == "close":
+            return pc.close
         if kind == "setLocal:implicit":
             return pc.setLocalDescription
         if kind == "setLocal:offer":
@@ -771,6 +773,13 @@ class C14World(PcWorld):
             if exc is not None and type(exc).__name__ not in ("InvalidStateError", "ValueError", "OperationError"):
                 self.violation("C14", "overlapping-call-raised:%s" % exc_tag(exc), "%s %s of %s/%s: %r" % (
                     n, which, op["first"], op["second"], exc))
+                return
+        if op["second"] == "close" and exc2 is None:
+            self.probes["overlaps_with_close"] += 1
+            if pc.signalingState != "closed" and not self.violations:
+                self.violation("C14", "closed-is-not-absorbing:overlapping-%s" % op["first"],
+                               "%s: close() returned while %s was in progress; signalingState ended as %s" % (
+                                   n, op["first"], pc.signalingState))
                 return
         # resynchronise the harness's model with what the connection decided
         self.model[n] = pc.signalingState
